@@ -105,12 +105,33 @@ def build_project(strings, root, dumpdir):
 
     def dp(name):
         return os.path.join(dumpdir, name + '.dump')
+
+    ENV_SPELLINGS = ('dict', 'list', 'obj-dict', 'obj-list', 'obj-set')
+
+    def env_kw(prefix, vals, spelling, uid):
+        """the same environment (PREFIX<i> = vals[i]) in each way a build definition can spell it -> text of the env: value"""
+        if spelling == 'dict':
+            return '{%s}' % ', '.join("'%s%d': %s" % (prefix, i, lit(v)) for i, v in enumerate(vals))
+        if spelling == 'list':
+            return '[%s]' % ', '.join(lit('%s%d=%s' % (prefix, i, v)) for i, v in enumerate(vals))
+        var = 'ev_%s' % uid
+        if spelling == 'obj-dict':
+            L.append('%s = environment({%s})' % (var, ', '.join("'%s%d': %s" % (prefix, i, lit(v)) for i, v in enumerate(vals))))
+        elif spelling == 'obj-list':
+            L.append('%s = environment([%s])' % (var, ', '.join(lit('%s%d=%s' % (prefix, i, v)) for i, v in enumerate(vals))))
+        else:
+            L.append('%s = environment()' % var)
+            for i, v in enumerate(vals):
+                L.append("%s.set('%s%d', %s)" % (var, prefix, i, lit(v)))
+        return var
     # custom_target modes
     for fam, lst in (('p', plain), ('n', nl)):
         for ci, ch in enumerate(chunks(lst)):
             args = ', '.join(lit(s) for s in ch)
-            for mode in ('plain', 'capture', 'feed', 'env', 'console', 'depfile'):
-                name = 'ct_%s_%s_%d' % (mode, fam, ci)
+            for mode in ('plain', 'capture', 'feed', 'env', 'console', 'depfile') + tuple('env:' + sp for sp in ENV_SPELLINGS[1:]):
+                name = 'ct_%s_%s_%d' % (mode.replace(':', '_').replace('-', '_'), fam, ci)
+                spelling = mode.split(':')[1] if ':' in mode else 'dict'
+                mode = mode.split(':')[0]
                 kw = ''
                 first = "'--dump=%s'" % dp(name)
                 if mode == 'capture':
@@ -119,7 +140,7 @@ def build_project(strings, root, dumpdir):
                 elif mode == 'feed':
                     kw = ", feed: true, input: 'in.txt'"
                 elif mode == 'env':
-                    kw = ', env: {%s}' % ', '.join("'CE%d': %s" % (i, lit(s)) for i, s in enumerate(ch[:40]) if '\n' not in s or True)
+                    kw = ', env: ' + env_kw('CE', ch[:40], spelling, name)
                 elif mode == 'console':
                     kw = ', console: true'
                 elif mode == 'depfile':
@@ -144,12 +165,14 @@ def build_project(strings, root, dumpdir):
                 L.append("executable('ex_%s', 'main.c', gx_%s.process('g.in', extra_args: [%s]))" % (name, name, args))
                 plan.append(('genx', name, ch, None, {}))
             # tests
-            for proto in ('exitcode', 'tap', 'exitcode-workdir'):
-                name = 't_%s_%s_%d' % (proto.replace('-', '_'), fam, ci)
-                envd = ', '.join("'TE%d': %s" % (i, lit(s)) for i, s in enumerate(ch[:40]))
+            for pi_, proto in enumerate(('exitcode', 'tap', 'exitcode-workdir', 'exitcode:list', 'exitcode:obj-list', 'tap:obj-set', 'tap:obj-dict')):
+                spelling = proto.split(':')[1] if ':' in proto else 'dict'
+                proto = proto.split(':')[0]
+                name = 't_%s_%s_%s_%d' % (proto.replace('-', '_'), spelling.replace('-', '_'), fam, ci)
+                envd = env_kw('TE', ch[:40], spelling, name)
                 targs = "'--dump=%s', %s%s, %s" % (dp(name), "'--tap', " if proto == 'tap' else '', ', '.join("'--env=TE%d'" % i for i in range(min(40, len(ch)))), args)
                 wd = ", workdir: meson.current_source_dir() / 'w d'" if proto.endswith('workdir') else ''
-                L.append("test('%s', dump, args: [%s], env: {%s}, protocol: '%s'%s)" % (name, targs, envd, proto.split('-')[0], wd))
+                L.append("test('%s', dump, args: [%s], env: %s, protocol: '%s'%s)" % (name, targs, envd, proto.split('-')[0], wd))
                 plan.append(('test', name, ch, dp(name), {'proto': proto, 'nenv': min(40, len(ch))}))
     # env values only (arguments stay harmless, so only the env value decides how the command is wrapped)
     for ci, ch in enumerate(chunks(plain + nl, 1)):
